@@ -114,7 +114,7 @@ class StubPath:
         self.w.log.append(("read_text", self.parts))
         if self.parts not in self.w.files:
             raise FileNotFoundError(self.parts)
-        return self.w.files[self.parts]
+        return self.w.files[self.parts].decode()  # text mode decodes the bytes on disk
 
     def write_text(self, text, *a, **k):
         if self.parts[:-1] not in self.w.dirs:
@@ -340,7 +340,8 @@ def _fresh(rpc, protocol="file"):
 def _tree(rpc_w):
     w = World()
     with Patched(w):
-        return C.encode(_open(w, False, False, rpc_w)).doc.tree
+        d = C.encode(_open(w, False, False, rpc_w)).doc
+        return d.tree, d.ascii_only
 
 
 # concrete, computed once at import time (outside CrossHair's tracing) by the real reader / encoder
@@ -358,7 +359,7 @@ def document(rpc_w, doclen):
     """the index document written by a run with records_per_chunk = rpc_w; its length is symbolic"""
     from vlib.jsonc import Doc
 
-    return Doc(_TREES[rpc_w], doclen)
+    return Doc(_TREES[rpc_w][0], doclen, ascii_only=_TREES[rpc_w][1])
 
 
 # ---------------------------------------------------------------------------------------------- oracle
@@ -413,12 +414,12 @@ def same_group(a, b):
 # ---------------------------------------------------------------------------------------------- scenarios
 
 
-def _install(world, where, state, k, doc):
-    """state: 0 absent, 1 complete document, 2 torn after k characters"""
+def _install(world, where, state, k, doc, midchar=False):
+    """state: 0 absent, 1 complete document, 2 torn after k characters (midchar: the last character is cut in the middle of its bytes)"""
     if state == 1:
         world.files[where] = Text(doc, doc.length)
     elif state == 2:
-        world.files[where] = Text(doc, k)
+        world.files[where] = Text(doc, k, midchar)
     if where[:-1] not in world.dirs:
         world.dirs.add(where[:-2])
         world.dirs.add(where[:-1])
@@ -440,12 +441,12 @@ def _usable(world, where):
     return t is not None and t.complete()
 
 
-def _step(use_cache, create_cache, local, remote, k, doclen, rpc, rpc_w, strict, protocol="file"):
+def _step(use_cache, create_cache, local, remote, k, doclen, rpc, rpc_w, strict, protocol="file", midchar=False):
     """one open_image call from an arbitrary cache state; returns the conjunction of everything C07/C09/C10 demand of it"""
     doc = document(rpc_w, doclen)
     w = World(doclen, protocol)
-    _install(w, LOCAL, local, k, doc)
-    _install(w, ADJ, remote, k, doc)
+    _install(w, LOCAL, local, k, doc, midchar)
+    _install(w, ADJ, remote, k, doc, midchar)
     before = dict(w.files)
     want = fresh(rpc, protocol)
     with Patched(w):
@@ -509,7 +510,7 @@ def glue_ok(use_cache: bool, create_cache: bool, local: bool, remote: bool, docl
     return ok
 
 
-def torn_ok(use_cache: bool, create_cache: bool, local: int, remote: int, k: int, doclen: int, proto: int) -> bool:
+def torn_ok(use_cache: bool, create_cache: bool, local: int, remote: int, k: int, doclen: int, proto: int, midchar: bool) -> bool:
     """
     pre: doclen >= 2 and 0 <= k < doclen and 0 <= proto <= 2
     pre: 0 <= local <= 2 and 0 <= remote <= 2 and (local == 2 or remote == 2)
@@ -517,11 +518,11 @@ def torn_ok(use_cache: bool, create_cache: bool, local: int, remote: int, k: int
     """
     ok = True
     for rpc in RPCS:
-        ok = ok & _step(use_cache, create_cache, local, remote, k, doclen, rpc, RPCS_W[0], False, PROTOCOLS[proto])
+        ok = ok & _step(use_cache, create_cache, local, remote, k, doclen, rpc, RPCS_W[0], False, PROTOCOLS[proto], midchar)
     return ok
 
 
-def default_open_after_crash_ok(local: int, remote: int, k: int, doclen: int) -> bool:
+def default_open_after_crash_ok(local: int, remote: int, k: int, doclen: int, midchar: bool) -> bool:
     """
     pre: doclen >= 2 and 0 <= k < doclen
     pre: 0 <= local <= 2 and 0 <= remote <= 2
@@ -530,8 +531,8 @@ def default_open_after_crash_ok(local: int, remote: int, k: int, doclen: int) ->
     # open_image with its *default* options (use_cache=True, create_cache=False), then the repair, then a default open again
     doc = document(RPCS_W[0], doclen)
     w = World(doclen)
-    _install(w, LOCAL, local, k, doc)
-    _install(w, ADJ, remote, k, doc)
+    _install(w, LOCAL, local, k, doc, midchar)
+    _install(w, ADJ, remote, k, doc, midchar)
     ok = True
     with Patched(w):
         mapper = StubMapper(w, "/prod")
@@ -734,11 +735,11 @@ def _api(local, remote, k_frac, use_cache=True, create_cache=False):
     return api.cache_states(local, remote, k_frac, use_cache, create_cache)
 
 
-def api_replay_torn_ok(use_cache, create_cache, local, remote, k, doclen, proto):
+def api_replay_torn_ok(use_cache, create_cache, local, remote, k, doclen, proto, midchar):
     return _api(local, remote, k / doclen, use_cache, create_cache)
 
 
-def api_replay_default_open_after_crash_ok(local, remote, k, doclen):
+def api_replay_default_open_after_crash_ok(local, remote, k, doclen, midchar):
     return _api(local, remote, k / doclen)
 
 
